@@ -41,6 +41,7 @@ class Violation(Exception):
 
 
 _cur = None
+PATH_START_HOOKS = []      # callables run before every path (e.g. restoring intern tables the code under test mutates)
 
 
 def cur():
@@ -246,10 +247,12 @@ def zi(x):
 class SI:
     """symbolic integer.  C-level consumers (__index__, hash) concretise by forking
     over the declared bounded domain."""
-    __slots__ = ("e",)
+    __slots__ = ("e", "tz", "ub")
 
-    def __init__(self, e):
+    def __init__(self, e, tz=0, ub=None):
         self.e = e
+        self.tz = tz        # number of low bits known to be zero (set by <<)
+        self.ub = ub        # value known to lie in [0, 2**ub) (set by & mask)
 
     def _b(s, o, f):
         if isinstance(o, SV):
@@ -322,16 +325,45 @@ class SI:
         return SV(s._real()).__rtruediv__(o)
 
     def __and__(s, o):
-        # x & (2**k - 1) only
-        if isinstance(o, int) and o >= 0 and (o & (o + 1)) == 0:
-            return SI(z3.simplify(s.e % (o + 1)))
-        raise Unsupported("& on symbolic int")
+        if isinstance(o, int) and o >= 0 and (o & (o + 1)) == 0:     # x & (2**k - 1)
+            return SI(z3.simplify(s.e % (o + 1)), ub=o.bit_length())
+        return s._bv(o, lambda a, b: a & b)
 
     __rand__ = __and__
 
+    def _bv(s, o, f, width=40):
+        """bitwise operation on non-negative values below 2**width through bit-vectors"""
+        a, b = s.e, zi(o)
+        if not _cur.holds(SB(z3.And(a >= 0, b >= 0, a < 2 ** width, b < 2 ** width))):
+            raise Unsupported("bitwise operation on a possibly negative or large symbolic int")
+        return SI(z3.BV2Int(f(z3.Int2BV(a, width), z3.Int2BV(b, width)), False))
+
+    def __or__(s, o):
+        # (x << k) | y with 0 <= y < 2**k is x * 2**k + y
+        if isinstance(o, int) and not isinstance(o, bool):
+            if o == 0:
+                return s
+            if s.tz and 0 <= o < (1 << s.tz):
+                return SI(z3.simplify(s.e + o))
+            if s.ub is not None and o >= 0 and o % (1 << s.ub) == 0:
+                return SI(z3.simplify(s.e + o))
+        if isinstance(o, SI):
+            if s.tz and o.ub is not None and o.ub <= s.tz:
+                return SI(z3.simplify(s.e + o.e))
+            if o.tz and s.ub is not None and s.ub <= o.tz:
+                return SI(z3.simplify(s.e + o.e))
+        return s._bv(o, lambda a, b: a | b)
+
+    __ror__ = __or__
+
+    def __xor__(s, o):
+        return s._bv(o, lambda a, b: a ^ b)
+
+    __rxor__ = __xor__
+
     def __lshift__(s, o):
         if isinstance(o, int) and o >= 0:
-            return SI(z3.simplify(s.e * (1 << o)))
+            return SI(z3.simplify(s.e * (1 << o)), tz=s.tz + o)
         raise Unsupported("<< on symbolic int")
 
     def __rshift__(s, o):
@@ -418,9 +450,16 @@ def smax(a, b):
 
 
 # ------------------------------------------------------------------------ explorer
+def _shape(e):
+    """cheap, argument-order-insensitive fingerprint of a decision (z3.simplify orders commutative arguments by AST id,
+    which differs between runs, so a structural hash cannot be used): used to notice gross replay divergence"""
+    return (e.decl().kind(), e.num_args())
+
+
 class Explorer:
     def __init__(self, max_paths=10**9, timeout=300.0, int_lo=-64, int_hi=64, logic=None, sample_paths=3):
         self.s = z3.SolverFor(logic) if logic else z3.Solver()
+        self.s.set("timeout", 30000)      # one query: 30 s, then `unknown` -> the job is inconclusive
         self.max_paths = max_paths
         self.timeout = timeout
         self.paths = 0
@@ -527,7 +566,7 @@ class Explorer:
         self.decisions += 1
         if i < len(self.trail):
             v = self.trail[i][0]
-            if self.trail[i][2] is not None and self.trail[i][2] != e.hash():
+            if self.trail[i][2] is not None and self.trail[i][2] != _shape(e):
                 raise Unsupported("replay diverged: the code under test is not deterministic")
         else:
             can_t = self._check(e) == z3.sat
@@ -538,11 +577,11 @@ class Explorer:
             if can_t and can_f:
                 if self.depth_limit is not None and sum(1 for t in self.trail if len(t) > 3) >= self.depth_limit:
                     raise _Cut()
-                self.trail.append([True, True, e.hash(), "fork"])
+                self.trail.append([True, True, _shape(e), "fork"])
             elif can_t:
-                self.trail.append([True, False, e.hash()])
+                self.trail.append([True, False, _shape(e)])
             else:
-                self.trail.append([False, False, e.hash()])
+                self.trail.append([False, False, _shape(e)])
             v = self.trail[i][0]
         self.s.add(e if v else z3.Not(e))
         return v
@@ -632,6 +671,8 @@ class Explorer:
             self._keep = []
             self.reached_flag = False
             self.n += 1
+            for h in PATH_START_HOOKS:
+                h()
             try:
                 fn(self)
                 if self.depth_limit is not None:
